@@ -72,6 +72,7 @@ def cases(tier):  # noqa: F811
     cs.append(dict(name="engine_keeps_best.de.n4", fn=h_engine, params=dict(engine="de", n=4), profile="fp", budget_s=1800, oblig_timeout_s=120,
                    abstract_mul=True, weight=30))
     from .c03 import h_prefix
+    cs.append(dict(name="budget_prefix.sym.seed0", fn=h_prefix, params=dict(nmax=16, seed=0), profile="fp", budget_s=1200, max_paths=100000, weight=10))
     cs.append(dict(name="budget_prefix.sym", fn=h_prefix, params=dict(nmax=40 if tier == "quick" else 100), profile="fp", budget_s=2400, max_paths=100000,
                    weight=40))
     if tier == "thorough":
